@@ -26,6 +26,17 @@ func deepInstrs(root *ssa.Function, depth int) []deepInstr {
 // deepInstrsPruned: like deepInstrs, but does not descend into callees for which prune returns true (the call instruction
 // itself is still reported).
 func deepInstrsPruned(root *ssa.Function, depth int, prune func(*ssa.Function) bool) []deepInstr {
+	return deepInstrsScope(root, depth, prune, nil)
+}
+
+// deepInstrsScope: scope (if not nil) replaces the default "same package as the root" test for descending into a callee.
+func deepInstrsScope(root *ssa.Function, depth int, prune func(*ssa.Function) bool, scope func(*ssa.Function) bool) []deepInstr {
+	inScope := func(cal *ssa.Function) bool {
+		if scope != nil {
+			return scope(cal)
+		}
+		return rootFn(cal).Pkg == rootFn(root).Pkg
+	}
 	var out []deepInstr
 	var walk func(fn *ssa.Function, site ssa.Instruction, chain []*ssa.Call, seen map[*ssa.Function]bool, d int)
 	walk = func(fn *ssa.Function, site ssa.Instruction, chain []*ssa.Call, seen map[*ssa.Function]bool, d int) {
@@ -40,7 +51,7 @@ func deepInstrsPruned(root *ssa.Function, depth int, prune func(*ssa.Function) b
 					// a deferred closure / helper runs at every exit of fn: its instructions belong to the deep view (no
 					// parameter mapping: the chain is left as it is)
 					cal := staticCallee(&df.Call)
-					if cal != nil && cal.Blocks != nil && !seen[cal] && rootFn(cal).Pkg == rootFn(root).Pkg && cal != root && (prune == nil || !prune(cal)) {
+					if cal != nil && cal.Blocks != nil && !seen[cal] && inScope(cal) && cal != root && (prune == nil || !prune(cal)) {
 						seen[cal] = true
 						walk(cal, s, chain, seen, d-1)
 						delete(seen, cal)
@@ -48,7 +59,7 @@ func deepInstrsPruned(root *ssa.Function, depth int, prune func(*ssa.Function) b
 				}
 				if call, ok := in.(*ssa.Call); ok && d > 0 {
 					cal := staticCallee(&call.Call)
-					if cal != nil && cal.Blocks != nil && !seen[cal] && rootFn(cal).Pkg == rootFn(root).Pkg && cal != root && (prune == nil || !prune(cal)) {
+					if cal != nil && cal.Blocks != nil && !seen[cal] && inScope(cal) && cal != root && (prune == nil || !prune(cal)) {
 						seen[cal] = true
 						walk(cal, s, append(append([]*ssa.Call{}, chain...), call), seen, d-1)
 						delete(seen, cal)
